@@ -442,6 +442,25 @@ macro_rules! explorer {
                                 if manual != sp {
                                     complain(rep, "SPANNED", &hist, format!("spanned() yields {sp:?}, manual iteration {manual:?}"));
                                 }
+                                // ---- spanned() is a WRAPPER: the iterator it returns holds this very lexer - same span,
+                                // slice, remainder, extras seen through Deref before its first next(), and an in-range
+                                // bump through DerefMut extends the CURRENT span
+                                {
+                                    let it = match node.clone() {
+                                        Node::A(l) => SNode::A(l.spanned()),
+                                        Node::B(l) => SNode::B(l.spanned()),
+                                    };
+                                    let inner = it.inner();
+                                    if inner.span() != (s, e) || inner.extras() != node.extras() || !inner.slice_ok(src) {
+                                        complain(rep, "SPANNED", &hist, format!("spanned() of a lexer at {:?} (extras {}) wraps a lexer at {:?} (extras {}), or its slice()/remainder() differ from the source", (s, e), node.extras(), inner.span(), inner.extras()));
+                                    } else if e + 1 <= len && $is_boundary(src, e + 1) {
+                                        let mut it2 = it.clone();
+                                        let ok = std::panic::catch_unwind(std::panic::AssertUnwindSafe(|| it2.bump1())).is_ok();
+                                        if !ok || it2.inner().span() != (s, e + 1) || !it2.inner().slice_ok(src) {
+                                            complain(rep, "SPANNED", &hist, format!("bump(1) through a fresh spanned iterator of a lexer at {:?} gives {:?}", (s, e), it2.inner().span()));
+                                        }
+                                    }
+                                }
                                 // ---- every PROVIDED Iterator method an impl may override (count, last, nth, fold,
                                 // size_hint), on the lexer and on the spanned iterator: each is defined by next()
                                 if let Some(bad) = node.iterator_methods(&manual, len + 3) {
